@@ -95,6 +95,8 @@ func mainCheck(args []string) int {
 	dump := fs.Bool("dump", false, "keep smt files and print failing queries")
 	timeoutS := fs.Int("timeout", 0, "per-query timeout seconds")
 	noEvidence := fs.Bool("no-evidence", false, "do not write evidence")
+	fnExact := fs.String("fn", "", "exact short key of the one function to check (replay)")
+	oblExact := fs.String("obligation", "", "replay: report only this obligation")
 	fs.Parse(args)
 	start := time.Now()
 	seed := 0
@@ -152,6 +154,9 @@ func mainCheck(args []string) int {
 			continue
 		}
 		if re != nil && !re.MatchString(c.Key) {
+			continue
+		}
+		if *fnExact != "" && shortKey(c.Key) != *fnExact {
 			continue
 		}
 		targets = append(targets, c)
@@ -320,6 +325,9 @@ func mainCheck(args []string) int {
 	replayDir := filepath.Join(*verif, "replays", *prop)
 	os.MkdirAll(replayDir, 0o755)
 	for _, o := range failed {
+		if *oblExact != "" && o.Name != *oblExact {
+			continue
+		}
 		isKnown := false
 		for _, k := range known {
 			if !k.Fixed && k.Prop == *prop && (k.Obligation == o.Name || (k.Clause != "" && strings.HasPrefix(o.Name, k.Obligation) && strings.Contains(o.Desc, k.Clause))) {
